@@ -7,6 +7,7 @@ Since: 05-2022
 """
 import math
 from itertools import combinations, product
+from collections import Counter
 from typing import List, Iterable
 import logging
 from prtpy.binners import BinsArray
@@ -173,8 +174,8 @@ def is_dominant(list1: List, list2: List):
     elif not list1:
         return False
 
-    # If list2 is a sublist of list1
-    if all(x in list1 for x in list2):
+    # If list2 is a sublist of list1 (as multisets: repeated values must be repeated in list1 too)
+    if not Counter(list2) - Counter(list1):
         return True
 
     # If the largest item in list2 does not fit the largest item in list1 - list1 can't dominate list2
